@@ -336,13 +336,28 @@ DoPLs(S, pat) ==
 
 DoLen(S) == Res(S, RLen(S.len))
 
+\* PersistentStorageImpl::update_value (persistence/mod.rs:84-140) parses the
+\* value written to $SYS/clients/<id>/graveGoods|lastWill, whatever the backend
+GGParses(v) == v \in DOMAIN Meaning /\ Meaning[v].lw = <<>>
+LWParses(v) == v \in DOMAIN Meaning /\ Meaning[v].gg = <<>>
+RegistrationUnparsable(path, v) ==
+  /\ Len(path) = 4 /\ path[1] = SYS /\ path[2] = CLIENTS
+  /\ \/ path[4] = GG /\ ~GGParses(v)
+     \/ path[4] = LW /\ ~LWParses(v)
+E_IO == 3
+
 \* set / cset share everything but the entry (worterbuch.rs:334-411)
 DoWrite(S, path, new, c, force) ==
   LET ro == ReadOnlyCheck(path, c) IN
   IF ro # -1 THEN Res(S, Err(ro))
   ELSE IF HasWildcard(path) THEN Res(S, Err(FirstWildErr(path)))
+  ELSE IF "D_GGLW_PARSE" \notin Dev /\ RegistrationUnparsable(path, new.v) THEN Res(S, Err(E_IO))
   ELSE LET i == Insert(S, path, new, force) IN
     IF i.err # -1 THEN Res(WithStore(S, i.st, i.len), Err(i.err))
+    ELSE IF RegistrationUnparsable(path, new.v)
+      \* as-is: the value is already in the store when the parse error is returned;
+      \* nobody is notified
+      THEN Res(WithStore(S, i.st, i.len), Err(E_IO))
     ELSE LET S2 == WithStore(S, i.st, i.len) IN
          [s |-> S2, rep |-> Ok, ev |-> Notify(S2, path, new.v, i.changed, FALSE),
           ls |-> LsNotify(S2, i.lsn), lk |-> {}]
